@@ -251,21 +251,27 @@ def handle (j : Json) : Except String Json := do
     let inputs := strList (j.getObjValD "inputs")
     let skip := (j.getObjValD "skipParent") == Json.bool true
     let fm := (j.getObjValD "fileMatch") == Json.bool true
-    -- actions in order: [true, r] = SetRoot r, [false, p] = merge input p
-    let acts : List (Bool × String) :=
+    -- actions in order: (0, r) = SetRoot r, (1, p) = merge input p, (2, r) = SetRoot r whose refusal the caller ignores
+    let acts : List (Nat × String) :=
       match j.getObjVal? "actions" with
       | .ok (.arr as) => as.toList.filterMap fun a =>
-          match a.getObjVal? "root", a.getObjVal? "input" with
-          | .ok (.str r), _ => some (true, r)
-          | _, .ok (.str p) => some (false, p)
-          | _, _ => none
-      | _ => roots.map (fun r => (true, r)) ++ inputs.map (fun p => (false, p))
+          match a.getObjVal? "root", a.getObjVal? "input", a.getObjVal? "tryroot" with
+          | .ok (.str r), _, _ => some (0, r)
+          | _, .ok (.str p), _ => some (1, p)
+          | _, _, .ok (.str r) => some (2, r)
+          | _, _, _ => none
+      | _ => roots.map (fun r => (0, r)) ++ inputs.map (fun p => (1, p))
     let run : R (List Val × List Val) := do
       let mut cfg : RootCfg := { root := [], cwd := cwd }
       let mut st := PState.empty
-      for (isRoot, x) in acts do
-        if isRoot then
+      for (kind, x) in acts do
+        if kind == 0 then
           cfg ← setRoot fs cfg x
+        else if kind == 2 then
+          -- a refused SetRoot leaves the parser as it was
+          match setRoot fs cfg x with
+          | .ok c => cfg := c
+          | .error _ => pure ()
         else
           let real ← if fm then (do let (r, _) ← fileMatch fs cwd x; pure r) else pure (absPath cwd x)
           st ← if skip then mergeFileAlone fs cfg st real else mergeFileLayers fs cfg st real
